@@ -252,7 +252,7 @@ package transport
 // the keep-alive goroutine is stopped on every exit after it was started (also when the executor panics)
 //@   onexit calls(spawn) >= 1 ==> calls(stopKeepAlive) + calls(close) >= 1
 //@   ghost drained = false
-//@   at `nextResponse(ctx, exec, rc, responses)` ghost drained = callres0 == nil
+//@   at `nextResponse(...` ghost drained = callres0 == nil
 //@   ensures @C05 calls(DispatchOperation) >= 1 ==> drained
 // C04/C12 (D30): once the stream has started the response handler (user code runs in there while values are
 // serialized) is only ever called through nextResponse, which contains its panics - never directly
@@ -279,8 +279,8 @@ package transport
 //@   ghost got = nil
 //@   ghost made = nil
 //@   at `responses(ctx)` ghost got = callres0
-//@   at `exec.DispatchError(ctx, gqlerror.List{gqlErr})` ghost made = callres0
-//@   at `exec.DispatchError(ctx, gqlerror.List{gqlErr})` assumenopanic the error presenter and the response interceptors (user code) do not panic while an error is reported
+//@   at `exec.DispatchError(...` ghost made = callres0
+//@   at `exec.DispatchError(...` assumenopanic the error presenter and the response interceptors (user code) do not panic while an error is reported
 //@   ensures calls(ResponseHandler) == 1
 //@   ensures panicked ==> calls(Recover) == 1 && calls(DispatchError) == 1 && res0 == made
 //@   ensures !panicked ==> calls(Recover) == 0 && calls(DispatchError) == 0 && res0 == got
@@ -298,7 +298,7 @@ package transport
 //@   pure
 //@ func (MultipartMixed).Do [C03,C10,C05,C12,C04]
 //@   ghost drained = false
-//@   at `nextResponse(ctx, exec, rc, responses)` ghost drained = callres0 == nil
+//@   at `nextResponse(...` ghost drained = callres0 == nil
 //@   ensures @C05 calls(DispatchOperation) >= 1 ==> drained
 //@   callsite type=graphql.ResponseHandler: requires false
 //@   requires r != nil && w != nil && exec != nil
